@@ -1,4 +1,5 @@
 -------------------------- MODULE MC_ExpoHistogram --------------------------
 EXTENDS ExpoHistogram
 MCVals == @VALS@
+MCMaxScale == @MAXSCALE@      \* may be negative: not expressible in a cfg file
 =============================================================================
